@@ -26,6 +26,9 @@ Proof. intros H. apply nth_error_app1. exact H. Qed.
 Lemma set_nth_snoc_lt {A} (l:list A) x j v : (j < length l)%nat -> set_nth (l ++ [x]) j v = set_nth l j v ++ [x].
 Proof. intros H. apply set_nth_app_l. exact H. Qed.
 
+Lemma skipn_app_len {A} (a b:list A) : skipn (length a) (a ++ b) = b.
+Proof. induction a as [|x a IH]; [reflexivity|exact IH]. Qed.
+
 (* ---------- explicit forms of the primitive state transformers ---------- *)
 Definition sref (st:state) (i:nat) : option nat := match nth_error (sources st) i with Some o => o | None => None end.
 Definition hp (st:state) (oid:nat) : option entry := match nth_error (heap st) oid with Some (Some e) => Some e | _ => None end.
@@ -746,7 +749,7 @@ Proof.
   replace (idx + 1 + 1) with (idx + 2) in * by lia.
   destruct Hkind as [(H0 & Hty)|(Hlen & Hty)].
   - (* empty *)
-    subst len. destruct (Z.leb_spec (0 + 2) 2); [|lia]. cbn [orb].
+    rewrite H0 in *. destruct (Z.leb_spec (0 + 2) 2); [|lia]. cbn [orb].
     destruct (Z.eqb_spec (0 + 2) 2); [|lia]. destruct (Z.leb_spec ty 1); [|lia]. cbn [andb].
     destruct (Z.gtb_spec (Z.of_nat (length dest)) 0).
     + rewrite wr_ok by lia. cbn [bind]. eexists. split; [f_equal; f_equal; f_equal; lia|]. split; [apply zset_length|lia].
@@ -754,7 +757,7 @@ Proof.
   - subst ty. destruct (Z.leb_spec (len + 2) 2); [lia|]. destruct (Z.eqb_spec (len + 2) 255); [lia|]. destruct (Z.gtb_spec 1 1); [lia|].
     destruct (Z.geb_spec (idx + 2) (mlen m)); [lia|]. cbn [orb]. replace (len + 2 - 2) with len by lia.
     destruct (Z.gtb_spec (len + (idx + 2)) (mlen m)); [lia|].
-    destruct (Z.gtb_spec (Z.of_nat (length dest)) 0); [|specialize (Hsz ltac:(lia)); lia]. cbn [Z.eqb].
+    destruct (Z.gtb_spec (Z.of_nat (length dest)) 0); [|specialize (Hsz ltac:(lia)); lia]. change (1 =? 1) with true. cbv iota.
     rewrite (get_str_sized_fits m dest len 255 (idx + 2) Hp ltac:(lia) ltac:(lia) ltac:(lia) ltac:(lia)). cbn [bind].
     pose proof (gs_out_length m (Z.of_nat (length dest)) len 255 (idx + 2) Hp ltac:(lia) ltac:(lia) ltac:(lia) ltac:(lia)) as Hol.
     eexists. split; [f_equal; f_equal; f_equal; lia|]. split; [rewrite app_length, repeat_length; lia|].
@@ -776,12 +779,15 @@ Qed.
 Lemma from_tmsg m idx : 0 <= idx <= dlen m -> from (tmsg m) idx = skipn (Z.to_nat idx) (pl m) ++ repeat 0 (223 - length (pl m)).
 Proof. intros H. unfold from, tmsg, dlen in *. cbn [mdata]. rewrite skipn_app. replace (Z.to_nat idx - length (pl m))%nat with 0%nat by lia. reflexivity. Qed.
 
+Lemma cut_text : forall l, cut 255 l = s_text l.
+Proof. induction l as [|b l IH]; [reflexivity|]. cbn [cut s_text]. rewrite IH. reflexivity. Qed.
+
 (* s_var on the list = a field of the message *)
 Lemma s_var_field m idx text r' : 0 <= idx <= dlen m -> s_var (skipn (Z.to_nat idx) (pl m)) = Some (text, r') ->
   exists len ty body rest, vfield (tmsg m) idx len ty body rest /\ text = cut 255 body /\ r' = skipn (Z.to_nat (idx + 2 + len)) (pl m) /\ idx + 2 + len <= dlen m.
 Proof.
   intros Hi Hs. pose proof (from_tmsg m idx Hi) as Hfrom. set (pad := repeat 0 (223 - length (pl m))) in *.
-  assert (Hlen : Z.of_nat (length (skipn (Z.to_nat idx) (pl m))) = dlen m - idx) by (rewrite skipn_length; unfold dlen; lia).
+  assert (Hlen : Z.of_nat (length (skipn (Z.to_nat idx) (pl m))) = dlen m - idx) by (rewrite skipn_length; unfold dlen in *; lia).
   destruct (skipn (Z.to_nat idx) (pl m)) as [|l [|t r0]] eqn:Er; cbn [s_var] in Hs; try discriminate. cbn [length] in Hlen.
   assert (Hskip : forall n, (n <= length r0)%nat -> skipn n r0 = skipn (Z.to_nat (idx + 2 + Z.of_nat n)) (pl m)).
   { intros n Hn. replace (Z.to_nat (idx + 2 + Z.of_nat n)) with (Z.to_nat idx + (2 + n))%nat by lia. rewrite <- skipn_add, Er. reflexivity. }
@@ -794,9 +800,216 @@ Proof.
     split; [rewrite firstn_length; lia|]. split; [unfold tmsg; cbn [mlen]; lia|]. split; [lia|]. right. lia.
   - destruct ((l =? 2) && ((t =? 0) || (t =? 1))) eqn:Eb; [|discriminate]. apply andb_true_iff in Eb. destruct Eb as (E1 & E2).
     apply Z.eqb_eq in E1. apply orb_true_iff in E2. injection Hs as <- <-.
-    exists 0, t, [], (r0 ++ pad). split; [|split; [reflexivity|split; [rewrite <- (Hskip 0%nat) by lia; reflexivity|lia]]].
+    exists 0, t, [], (r0 ++ pad). split; [|split; [reflexivity|split; [pose proof (Hskip 0%nat ltac:(lia)) as H0s; cbn [skipn Z.of_nat] in H0s; exact H0s|lia]]].
     split; [rewrite Hfrom; subst l; reflexivity|]. split; [reflexivity|]. split; [unfold tmsg; cbn [mlen]; lia|]. split; [lia|].
     left. split; [reflexivity|]. destruct E2 as [E|E]; apply Z.eqb_eq in E; auto.
+Qed.
+
+(* a region of the ConfI buffer holds the bytes d *)
+Definition holds (buf:option (list Z)) (off:Z) (d:list Z) : Prop :=
+  exists b, buf = Some b /\ 0 <= off /\ off + Z.of_nat (length d) <= Z.of_nat (length b) /\ firstn (length d) (skipn (Z.to_nat off) b) = d.
+
+Lemma firstn_app_exact {A} (a b:list A) : firstn (length a) (a ++ b) = a.
+Proof. rewrite firstn_app, Nat.sub_diag, firstn_all. cbn [firstn]. apply app_nil_r. Qed.
+Lemma holds_put b off d : 0 <= off -> off + Z.of_nat (length d) <= Z.of_nat (length b) -> holds (Some (put b off d)) off d.
+Proof.
+  intros Ho Hl. exists (put b off d). split; [reflexivity|]. split; [exact Ho|]. split; [rewrite put_length by assumption; exact Hl|].
+  unfold put. assert (Hf : length (firstn (Z.to_nat off) b) = Z.to_nat off) by (rewrite firstn_length; lia).
+  rewrite <- Hf at 1. rewrite skipn_app_len. apply firstn_app_exact.
+Qed.
+Lemma holds_put_other b off d off2 d2 : holds (Some b) off d -> 0 <= off2 -> off2 + Z.of_nat (length d2) <= Z.of_nat (length b) ->
+  (off2 + Z.of_nat (length d2) <= off \/ off + Z.of_nat (length d) <= off2) -> holds (Some (put b off2 d2)) off d.
+Proof.
+  intros (b0 & Eb & Ho & Hl & Hd) Ho2 Hl2 Hdis. injection Eb as <-. exists (put b off2 d2). split; [reflexivity|]. split; [exact Ho|].
+  split; [rewrite put_length by assumption; exact Hl|]. rewrite <- Hd at 2. unfold put.
+  assert (Hf : length (firstn (Z.to_nat off2) b) = Z.to_nat off2) by (rewrite firstn_length; lia).
+  destruct Hdis as [Hbefore|Hafter].
+  - (* the other region lies before *)
+    rewrite app_assoc. rewrite skipn_app. rewrite (skipn_all2 (firstn (Z.to_nat off2) b ++ d2)) by (rewrite app_length; lia). cbn [app].
+    rewrite app_length, Hf. rewrite skipn_add. f_equal. f_equal. lia.
+  - (* the other region lies behind *)
+    rewrite skipn_app. rewrite Hf. replace (Z.to_nat off - Z.to_nat off2)%nat with 0%nat by lia. cbn [skipn].
+    rewrite firstn_app_le by (rewrite skipn_length, Hf; lia).
+    rewrite <- (firstn_skipn (Z.to_nat off2) b) at 2. rewrite skipn_app. rewrite Hf. replace (Z.to_nat off - Z.to_nat off2)%nat with 0%nat by lia. cbn [skipn].
+    rewrite firstn_app_le by (rewrite skipn_length, Hf; lia). reflexivity.
+Qed.
+Lemma holds_cstr b off body : holds (Some b) off (gmap 255 false body ++ [0]) -> 
+  (if (0 <=? off) && (off <=? Z.of_nat (length b)) then s <- cstr_go (skipn (Z.to_nat off) b) ;; Ok (Some s) else OOB) = Ok (Some (cut 255 body)).
+Proof.
+  intros (b0 & Eb & Ho & Hl & Hd). injection Eb as <-. destruct (Z.leb_spec 0 off); [|lia]. destruct (Z.leb_spec off (Z.of_nat (length b))); [|lia]. cbn [andb].
+  rewrite <- (firstn_skipn (length (gmap 255 false body ++ [0])) (skipn (Z.to_nat off) b)). rewrite Hd. rewrite <- app_assoc. cbn [app].
+  rewrite cstr_go_gmap. reflexivity.
+Qed.
+
+Definition fsz (len:Z) : Z := if len >? 0 then len + 1 else 0.
+Definition ctext (len:Z) (body:list Z) : option (list Z) := if len >? 0 then Some (cut 255 body) else None.
+
+Lemma vfield_len m idx len ty body rest : vfield m idx len ty body rest -> 0 <= len <= 252.
+Proof. intros (_ & _ & _ & _ & [(-> & _)|(H & _)]); lia. Qed.
+
+Lemma read_field_val tm buf ptr off idx len ty body rest : payload tm -> vfield tm idx len ty body rest -> 0 <= off -> field_ok buf ptr (fsz len) off ->
+  exists buf', read_field tm buf ptr (fsz len) idx = Ok (true, idx + 2 + len, buf') /\
+    (len > 0 -> exists b, buf = Some b /\ ptr = Some off /\ off + (len + 1) <= Z.of_nat (length b) /\ buf' = Some (put b off (gmap 255 false body ++ [0]))) /\
+    (len = 0 -> buf' = buf /\ ptr = None).
+Proof.
+  intros Hp Hv Ho F. pose proof (vfield_len _ _ _ _ _ _ Hv) as Hlen. unfold field_ok, fsz in *. unfold read_field.
+  destruct (Z.gtb_spec len 0) as [Hpos|Hz].
+  - destruct (Z.gtb_spec (len + 1) 0); [|lia]. destruct F as (-> & b & -> & Hl).
+    destruct (slice_ok b off (len + 1) Ho ltac:(lia) Hl) as (d & Ed & Hd). rewrite Ed. cbn [bind].
+    destruct (gvs_field tm idx len ty body rest d Hp Hv ltac:(lia)) as (d' & E & Hd' & Hval). rewrite Hd in E. rewrite E. cbn [bind].
+    eexists. split; [reflexivity|]. split; [|lia]. intros _. exists b. split; [reflexivity|]. split; [reflexivity|]. split; [exact Hl|].
+    rewrite (Hval ltac:(lia) Hd). reflexivity.
+  - assert (len = 0) by lia. subst len. cbn [Z.gtb Z.compare] in F. subst ptr.
+    destruct (gvs_field tm idx 0 ty body rest [] Hp Hv ltac:(lia)) as (d' & E & _). cbn [length Z.of_nat] in E.
+    destruct buf as [b|]; rewrite E; cbn [bind]; eexists; (split; [reflexivity|]); split; try lia; auto.
+Qed.
+
+Definition rfv (buf buf':option (list Z)) (ptr:option Z) (off len:Z) (body:list Z) : Prop :=
+  (len > 0 -> exists b, buf = Some b /\ ptr = Some off /\ off + (len + 1) <= Z.of_nat (length b) /\ buf' = Some (put b off (gmap 255 false body ++ [0]))) /\
+  (len = 0 -> buf' = buf /\ ptr = None).
+Lemma gmap0_len body len : Z.of_nat (length body) = len -> Z.of_nat (length (gmap 255 false body ++ [0])) = len + 1.
+Proof. intros H. rewrite app_length, gmap_length. cbn [length]. lia. Qed.
+Lemma rfv_len buf buf' ptr off len body : rfv buf buf' ptr off len body -> 0 <= off -> 0 <= len -> Z.of_nat (length body) = len ->
+  forall l, buf = Some l -> exists l', buf' = Some l' /\ length l' = length l.
+Proof.
+  intros (Hp & Hz) Ho Hl Hb l El. destruct (Z.eq_dec len 0) as [H0|H0].
+  - destruct (Hz H0) as (-> & _). exists l. auto.
+  - destruct (Hp ltac:(lia)) as (b & Eb & _ & Hfit & ->). rewrite El in Eb. injection Eb as <-. eexists. split; [reflexivity|].
+    apply put_length; [exact Ho|]. rewrite (gmap0_len _ _ Hb). exact Hfit.
+Qed.
+Lemma rfv_holds_other buf buf' ptr off len body off0 d0 : rfv buf buf' ptr off len body -> 0 <= off -> 0 <= len -> Z.of_nat (length body) = len ->
+  holds buf off0 d0 -> (len > 0 -> off + (len + 1) <= off0 \/ off0 + Z.of_nat (length d0) <= off) -> holds buf' off0 d0.
+Proof.
+  intros (Hp & Hz) Ho Hl Hb Hh Hdis. destruct (Z.eq_dec len 0) as [H0|H0].
+  - destruct (Hz H0) as (-> & _). exact Hh.
+  - destruct (Hp ltac:(lia)) as (b & -> & _ & Hfit & ->). apply holds_put_other; [exact Hh|exact Ho| |]; rewrite (gmap0_len _ _ Hb); [exact Hfit|apply Hdis; lia].
+Qed.
+Lemma rfv_holds_new buf buf' ptr off len body : rfv buf buf' ptr off len body -> 0 <= off -> len > 0 -> Z.of_nat (length body) = len ->
+  ptr = Some off /\ holds buf' off (gmap 255 false body ++ [0]).
+Proof.
+  intros (Hp & _) Ho Hl Hb. destruct (Hp Hl) as (b & -> & -> & Hfit & ->). split; [reflexivity|]. apply holds_put; [exact Ho|]. rewrite (gmap0_len _ _ Hb). exact Hfit.
+Qed.
+Lemma vfield_body m idx len ty body rest : vfield m idx len ty body rest -> Z.of_nat (length body) = len.
+Proof. intros (_ & H & _). exact H. Qed.
+
+Definition conf_val (e2:entry) (man d1 d2:option (list Z)) : Prop :=
+  conf_str e2 (e_man e2) = Ok man /\ conf_str e2 (e_d1 e2) = Ok d1 /\ conf_str e2 (e_d2 e2) = Ok d2.
+
+Lemma conf_str_holds e ptr off len body : 0 <= len -> (len > 0 -> ptr = Some off /\ holds (e_confi e) off (gmap 255 false body ++ [0])) -> (len = 0 -> ptr = None) ->
+  conf_str e ptr = Ok (ctext len body).
+Proof.
+  intros Hl Hp Hz. unfold ctext, conf_str. destruct (Z.gtb_spec len 0) as [Hpos|Hnp].
+  - destruct (Hp ltac:(lia)) as (-> & Hh). pose proof Hh as (b & Eb & _). rewrite Eb in *. apply holds_cstr. exact Hh.
+  - rewrite (Hz ltac:(lia)). reflexivity.
+Qed.
+
+Lemma handle_conf_val m st s oid e l1 t1 b1 r1 l2 t2 b2 r2 l3 t3 b3 r3 :
+  WF st -> b_src m = Z.of_nat s -> (s < 254)%nat -> sref st s = Some oid -> hp st oid = Some e ->
+  vfield (tmsg m) 0 l1 t1 b1 r1 -> vfield (tmsg m) (0 + 2 + l1) l2 t2 b2 r2 -> vfield (tmsg m) (0 + 2 + l1 + 2 + l2) l3 t3 b3 r3 ->
+  exists st' e2, handle_conf m st = Ok st' /\ WF st' /\ maxdev st' = maxdev st /\ updated st' = true /\ conf_only e e2 /\
+    (forall j, slot st' j = T_set (slot st) s (Some e2) j) /\ conf_val e2 (ctext l3 b3) (ctext l1 b1) (ctext l2 b2).
+Proof.
+  intros W Hsrc Hs Er He V1 V2 V3. pose proof W as (Hl & Hm & Wf). unfold handle_conf. rewrite Hsrc. rewrite src_get_ok by lia. cbn [bind]. rewrite Nat2Z.id, Er.
+  rewrite (deref_ok _ _ _ He). cbn [bind]. pose proof (tmsg_payload m) as Hp.
+  pose proof (vfield_len _ _ _ _ _ _ V1) as HL1. pose proof (vfield_len _ _ _ _ _ _ V2) as HL2. pose proof (vfield_len _ _ _ _ _ _ V3) as HL3.
+  pose proof (vfield_body _ _ _ _ _ _ V1) as HB1. pose proof (vfield_body _ _ _ _ _ _ V2) as HB2. pose proof (vfield_body _ _ _ _ _ _ V3) as HB3.
+  (* first pass *)
+  assert (Hmeas : measure_conf (tmsg m) = Ok (Some (l3, l1, l2))).
+  { unfold measure_conf. set (sc := repeat 0 (Z.to_nat SCRATCH)). assert (Hsc : Z.of_nat (length sc) = SCRATCH) by apply scratch_len.
+    assert (Hpos : (0 < length sc)%nat) by (unfold SCRATCH in Hsc; lia).
+    destruct (gvs_field (tmsg m) 0 l1 t1 b1 r1 sc Hp V1 ltac:(intros _; exact Hpos)) as (d1 & E1 & Hd1 & _). rewrite Hsc in E1. rewrite E1. cbn [bind negb].
+    destruct (gvs_field (tmsg m) (0 + 2 + l1) l2 t2 b2 r2 d1 Hp V2 ltac:(intros _; lia)) as (d2 & E2 & Hd2 & _). rewrite Hd1, Hsc in E2. rewrite E2. cbn [bind negb].
+    destruct (gvs_field (tmsg m) (0 + 2 + l1 + 2 + l2) l3 t3 b3 r3 d2 Hp V3 ltac:(intros _; lia)) as (d3 & E3 & Hd3 & _). rewrite Hd2, Hd1, Hsc in E3.
+    replace (0 + 2 + l1 + 2 + l2) with (0 + 2 + l1 + 2 + l2) in E3 by lia. rewrite E3. cbn [bind negb]. reflexivity. }
+  rewrite Hmeas. cbn [bind]. fold (fsz l3) (fsz l1) (fsz l2).
+  assert (Hf1 : 0 <= fsz l1 <= 335) by (unfold fsz; destruct (l1 >? 0); lia).
+  assert (Hf2 : 0 <= fsz l2 <= 335) by (unfold fsz; destruct (l2 >? 0); lia).
+  assert (Hf3 : 0 <= fsz l3 <= 335) by (unfold fsz; destruct (l3 >? 0); lia).
+  assert (Hfz : forall l, 0 <= l -> (l > 0 -> fsz l = l + 1) /\ (l = 0 -> fsz l = 0)) by (intros l Hl0; unfold fsz; destruct (Z.gtb_spec l 0); split; lia).
+  destruct (init_conf_ok e (fsz l3) (fsz l1) (fsz l2) Hf3 Hf1 Hf2) as (e1 & E1 & Hco & FM & F1 & F2). rewrite E1. cbn [bind].
+  assert (Hfin : forall e2, conf_only e e2 -> conf_val e2 (ctext l3 b3) (ctext l1 b1) (ctext l2 b2) ->
+     exists st' e2', (st1 <- update st oid e2 ;; Ok (with_flags st1 true (pending st1))) = Ok st' /\ WF st' /\ maxdev st' = maxdev st /\ updated st' = true /\ conf_only e e2' /\
+       (forall j, slot st' j = T_set (slot st) s (Some e2') j) /\ conf_val e2' (ctext l3 b3) (ctext l1 b1) (ctext l2 b2)).
+  { intros e2 Hc Hv. destruct (update_one_slot st s oid e e2 W Er He) as (Eu & W' & Hmx & Hsl'); [rewrite Hc; reflexivity|].
+    rewrite Eu. cbn [bind]. eexists _, e2. split; [reflexivity|]. split; [apply wf_flags; exact W'|]. split; [exact Hmx|]. split; [reflexivity|]. split; [exact Hc|].
+    split; [intros j; rewrite slot_flags; apply Hsl'|exact Hv]. }
+  destruct (Z.gtb_spec (fsz l3 + fsz l1 + fsz l2) 0) as [Hpos|Hzero].
+  2:{ (* nothing to store: three empty strings *)
+      assert (l1 = 0 /\ l2 = 0 /\ l3 = 0) as (-> & -> & ->).
+      { destruct (Hfz l1 ltac:(lia)), (Hfz l2 ltac:(lia)), (Hfz l3 ltac:(lia)). repeat split; lia. }
+      cbn [bind]. apply Hfin; [exact Hco|]. unfold field_ok, fsz in FM, F1, F2. cbn in FM, F1, F2. unfold conf_val. rewrite FM, F1, F2. cbn. auto. }
+  (* second pass *)
+  destruct (read_field_val (tmsg m) (e_confi e1) (e_d1 e1) (fsz l3) 0 l1 t1 b1 r1 Hp V1 ltac:(lia) F1) as (c1 & R1 & R1v). rewrite R1. cbn [bind negb].
+  fold (rfv (e_confi e1) c1 (e_d1 e1) (fsz l3) l1 b1) in R1v.
+  pose proof (rfv_len _ _ _ _ _ _ R1v ltac:(lia) ltac:(lia) HB1) as L1.
+  destruct (read_field_val (tmsg m) c1 (e_d2 e1) (fsz l3 + fsz l1) (0 + 2 + l1) l2 t2 b2 r2 Hp V2 ltac:(lia) (field_ok_lift _ _ _ _ _ F2 L1)) as (c2 & R2 & R2v). rewrite R2. cbn [bind negb].
+  fold (rfv c1 c2 (e_d2 e1) (fsz l3 + fsz l1) l2 b2) in R2v.
+  pose proof (rfv_len _ _ _ _ _ _ R2v ltac:(lia) ltac:(lia) HB2) as L2.
+  assert (L12 : forall l, e_confi e1 = Some l -> exists l', c2 = Some l' /\ length l' = length l).
+  { intros l El. destruct (L1 l El) as (l' & El' & Hl'). destruct (L2 l' El') as (l'' & El'' & Hl''). exists l''. split; [exact El''|lia]. }
+  destruct (read_field_val (tmsg m) c2 (e_man e1) 0 (0 + 2 + l1 + 2 + l2) l3 t3 b3 r3 Hp V3 ltac:(lia) (field_ok_lift _ _ _ _ _ FM L12)) as (c3 & R3 & R3v).
+  rewrite R3. cbn [bind]. fold (rfv c2 c3 (e_man e1) 0 l3 b3) in R3v.
+  apply Hfin; [apply conf_only_trans; exact Hco|]. unfold conf_val. cbn [with_conf e_man e_d1 e_d2].
+  destruct (Hfz l1 ltac:(lia)) as (Hz1p & Hz1z). destruct (Hfz l2 ltac:(lia)) as (Hz2p & Hz2z). destruct (Hfz l3 ltac:(lia)) as (Hz3p & Hz3z).
+  split; [|split].
+  - (* manufacturer information: written last *)
+    apply (conf_str_holds _ _ 0); [lia| |intros H0; exact (proj2 (proj2 R3v H0))]. intros Hp3. cbn [with_conf e_confi].
+    exact (rfv_holds_new _ _ _ _ _ _ R3v ltac:(lia) Hp3 HB3).
+  - (* description 1: written first, then the two others *)
+    apply (conf_str_holds _ _ (fsz l3)); [lia| |intros H0; exact (proj2 (proj2 R1v H0))]. intros Hp1. cbn [with_conf e_confi].
+    destruct (rfv_holds_new _ _ _ _ _ _ R1v ltac:(lia) Hp1 HB1) as (Eptr & Hh). split; [exact Eptr|].
+    apply (rfv_holds_other _ _ _ _ _ _ _ _ R3v ltac:(lia) ltac:(lia) HB3); [|intros Hp3; left; rewrite (Hz3p Hp3); lia].
+    apply (rfv_holds_other _ _ _ _ _ _ _ _ R2v ltac:(lia) ltac:(lia) HB2); [exact Hh|]. intros _. right. rewrite (gmap0_len _ _ HB1), (Hz1p Hp1). lia.
+  - (* description 2 *)
+    apply (conf_str_holds _ _ (fsz l3 + fsz l1)); [lia| |intros H0; exact (proj2 (proj2 R2v H0))]. intros Hp2. cbn [with_conf e_confi].
+    destruct (rfv_holds_new _ _ _ _ _ _ R2v ltac:(lia) Hp2 HB2) as (Eptr & Hh). split; [exact Eptr|].
+    apply (rfv_holds_other _ _ _ _ _ _ _ _ R3v ltac:(lia) ltac:(lia) HB3); [exact Hh|]. intros Hp3. left. rewrite (Hz3p Hp3). lia.
+Qed.
+
+Definition conf_rep (e:entry) (man d1 d2:list Z) : Prop :=
+  exists rm r1 r2, conf_str e (e_man e) = Ok rm /\ conf_str e (e_d1 e) = Ok r1 /\ conf_str e (e_d2 e) = Ok r2 /\
+                   opt_text rm = man /\ opt_text r1 = d1 /\ opt_text r2 = d2.
+Lemma opt_ctext len body : Z.of_nat (length body) = len -> opt_text (ctext len body) = cut 255 body.
+Proof. intros H. unfold ctext. destruct (Z.gtb_spec len 0); [reflexivity|]. destruct body; [reflexivity|cbn [length] in H; lia]. Qed.
+
+Lemma s_conf_fields m man d1 d2 : s_conf (pl m) = Some (man, d1, d2) ->
+  exists l1 t1 b1 r1 l2 t2 b2 r2 l3 t3 b3 r3,
+    vfield (tmsg m) 0 l1 t1 b1 r1 /\ vfield (tmsg m) (0 + 2 + l1) l2 t2 b2 r2 /\ vfield (tmsg m) (0 + 2 + l1 + 2 + l2) l3 t3 b3 r3 /\
+    d1 = cut 255 b1 /\ d2 = cut 255 b2 /\ man = cut 255 b3.
+Proof.
+  unfold s_conf. intros H. pose proof (dlen_range m) as Hd.
+  destruct (s_var (pl m)) as [[x1 q1]|] eqn:E1; [|discriminate].
+  destruct (s_var_field m 0 x1 q1 ltac:(lia) E1) as (l1 & t1 & b1 & r1 & V1 & -> & -> & Hf1).
+  destruct (s_var (skipn (Z.to_nat (0 + 2 + l1)) (pl m))) as [[x2 q2]|] eqn:E2; [|discriminate].
+  pose proof (vfield_len _ _ _ _ _ _ V1) as HL1.
+  destruct (s_var_field m (0 + 2 + l1) x2 q2 ltac:(lia) E2) as (l2 & t2 & b2 & r2 & V2 & -> & -> & Hf2).
+  destruct (s_var (skipn (Z.to_nat (0 + 2 + l1 + 2 + l2)) (pl m))) as [[x3 q3]|] eqn:E3; [|discriminate].
+  pose proof (vfield_len _ _ _ _ _ _ V2) as HL2.
+  destruct (s_var_field m (0 + 2 + l1 + 2 + l2) x3 q3 ltac:(lia) E3) as (l3 & t3 & b3 & r3 & V3 & -> & _ & _).
+  injection H as <- <- <-. exists l1, t1, b1, r1, l2, t2, b2, r2, l3, t3, b3, r3. auto 10.
+Qed.
+
+Lemma handle_conf_ok2 m st s : WF st -> b_src m = Z.of_nat s -> (s < 254)%nat ->
+  exists st', handle_conf m st = Ok st' /\ WF st' /\ maxdev st' = maxdev st /\
+    ((st' = st /\ (slot st s = None \/ s_conf (pl m) = None)) \/
+     exists e e2, slot st s = Some e /\ conf_only e e2 /\ updated st' = true /\ (forall j, slot st' j = T_set (slot st) s (Some e2) j) /\
+       forall man d1 d2, s_conf (pl m) = Some (man, d1, d2) -> conf_rep e2 man d1 d2).
+Proof.
+  intros W Hsrc Hs. destruct (s_conf (pl m)) as [[[man d1] d2]|] eqn:Ec.
+  - destruct (sref st s) as [oid|] eqn:Er.
+    + destruct (wf_slot _ _ _ W Er) as (e & He & Hsl & _).
+      destruct (s_conf_fields m man d1 d2 Ec) as (l1 & t1 & b1 & r1 & l2 & t2 & b2 & r2 & l3 & t3 & b3 & r3 & V1 & V2 & V3 & -> & -> & ->).
+      destruct (handle_conf_val m st s oid e _ _ _ _ _ _ _ _ _ _ _ _ W Hsrc Hs Er He V1 V2 V3) as (st' & e2 & E & W' & Hmx & Hu & Hco & Hsl' & (C1 & C2 & C3)).
+      exists st'. split; [exact E|]. split; [exact W'|]. split; [exact Hmx|]. right. exists e, e2. split; [exact Hsl|]. split; [exact Hco|]. split; [exact Hu|].
+      split; [exact Hsl'|]. intros man' d1' d2' Eq. injection Eq as <- <- <-. eexists _, _, _. split; [exact C1|]. split; [exact C2|]. split; [exact C3|].
+      rewrite !opt_ctext by (eapply vfield_body; eauto). auto.
+    + destruct (handle_conf_ok m st s W Hsrc Hs) as (st' & E & W' & Hmx & [->|(e & e2 & He & _)]).
+      * exists st. split; [exact E|]. split; [exact W|]. split; [reflexivity|]. left. split; [reflexivity|]. left. apply slot_none_of_sref. exact Er.
+      * rewrite (slot_none_of_sref _ _ Er) in He. discriminate.
+  - destruct (handle_conf_ok m st s W Hsrc Hs) as (st' & E & W' & Hmx & [->|(e & e2 & He & Hco & Hu & Hsl)]).
+    + exists st. split; [exact E|]. split; [exact W|]. split; [reflexivity|]. left. auto.
+    + exists st'. split; [exact E|]. split; [exact W'|]. split; [exact Hmx|]. right. exists e, e2. split; [exact He|]. split; [exact Hco|]. split; [exact Hu|].
+      split; [exact Hsl|]. discriminate.
 Qed.
 
 (* ---------- HandleProductInformation ---------- *)
@@ -849,8 +1062,6 @@ Proof.
   destruct (v =? 0); [reflexivity|]. rewrite IH. reflexivity.
 Qed.
 
-Lemma skipn_app_len {A} (a b:list A) : skipn (length a) (a ++ b) = b.
-Proof. induction a as [|x a IH]; [reflexivity|exact IH]. Qed.
 
 Lemma pgn_vals_spec : forall n pre r, (3 * n <= length r)%nat ->
   cut0 (pgn_vals (pre ++ r) n (Z.of_nat (length pre))) = s_pgns r n.
@@ -1062,7 +1273,9 @@ Definition prod_eff (st1 st2:state) (m:bmsg) (s:nat) : Prop :=
      forall j, slot st2 j = T_set (slot st1) s (Some (with_pi e true P (e_pireq e) (e_npi e))) j).
 Definition conf_eff (st1 st2:state) (m:bmsg) (s:nat) : Prop :=
   maxdev st2 = maxdev st1 /\
-  (st2 = st1 \/ exists e e2, slot st1 s = Some e /\ conf_only e e2 /\ updated st2 = true /\ forall j, slot st2 j = T_set (slot st1) s (Some e2) j).
+  ((st2 = st1 /\ (slot st1 s = None \/ s_conf (pl m) = None)) \/
+   exists e e2, slot st1 s = Some e /\ conf_only e e2 /\ updated st2 = true /\ (forall j, slot st2 j = T_set (slot st1) s (Some e2) j) /\
+     forall man d1 d2, s_conf (pl m) = Some (man, d1, d2) -> conf_rep e2 man d1 d2).
 Definition list_eff (st1 st2:state) (m:bmsg) (s:nat) : Prop :=
   maxdev st2 = maxdev st1 /\
   ((st2 = st1 /\ slot st1 s = None) \/ exists e e2, slot st1 s = Some e /\ updated st2 = true /\ lists_only e e2 /\
@@ -1119,7 +1332,7 @@ Proof.
       + destruct (handle_prod_ok m st1 s W1 Hsrc Hs) as (st2 & E & W2 & Hx). rewrite E. cbn [bind].
         destruct (Htouch st2 [] W2) as (st' & rq & E' & W' & R'). exists st', rq, st2. unfold prod_eff. auto 10.
       + destruct (b_pgn m =? PGN_conf) eqn:Ef.
-        * destruct (handle_conf_ok m st1 s W1 Hsrc Hs) as (st2 & E & W2 & Hx). rewrite E. cbn [bind].
+        * destruct (handle_conf_ok2 m st1 s W1 Hsrc Hs) as (st2 & E & W2 & Hx). rewrite E. cbn [bind].
           destruct (Htouch st2 [] W2) as (st' & rq & E' & W' & R'). exists st', rq, st2. unfold conf_eff. auto 10.
         * destruct (b_pgn m =? PGN_list) eqn:El.
           -- destruct (handle_list_ok m st1 s W1 Hsrc Hs) as (st2 & E & W2 & Hx). rewrite E. cbn [bind].
@@ -1341,7 +1554,8 @@ Definition dev_ok (b:bool) (d:adev) (e:entry) : Prop :=
   e_name e = a_name d /\
   (forall l, a_tx d = Some l -> pgn_list (e_tx e) = Ok (Some l)) /\
   (forall l, a_rx d = Some l -> pgn_list (e_rx e) = Ok (Some l)) /\
-  (b = true -> (a_pi d = None -> e_pil e = false) /\ (forall p, a_pi d = Some p -> e_pi e = s_reported p /\ e_pil e = true)).
+  (b = true -> (a_pi d = None -> e_pil e = false) /\ (forall p, a_pi d = Some p -> e_pi e = s_reported p /\ e_pil e = true)) /\
+  (forall man d1 d2, a_ci d = Some (man, d1, d2) -> conf_rep e man d1 d2).
 Definition devs (b:bool) (T:tview) (M:mirror) : Prop :=
   forall d, In d M -> a_name d <> 0 -> exists e, T (Z.to_nat (a_src d)) = Some e /\ dev_ok b d e.
 Definition InvT (b:bool) (T:tview) (M:mirror) : Prop := uniq T /\ Mwf M /\ pi_nrm T /\ devs b T M.
@@ -1389,9 +1603,9 @@ Proof.
     - intros d [<-|Hin] Hn0.
       + cbn [fresh a_name a_src] in *. rewrite Nat2Z.id.
         destruct S2 as [(Hsame & e & Es & Hne & Hc0)|(e' & Es' & Hne' & Hpil & _)].
-        * exists e. rewrite Hsame. split; [exact Es|]. split; [exact Hne|]. split; [discriminate|]. split; [discriminate|].
+        * exists e. rewrite Hsame. split; [exact Es|]. split; [exact Hne|]. split; [discriminate|]. split; [discriminate|]. split; [|discriminate].
           intros Hb. exfalso. exact (Hhyp Hb Hc0 Hnh e Es Hne).
-        * exists e'. split; [exact Es'|]. split; [exact Hne'|]. split; [discriminate|]. split; [discriminate|].
+        * exists e'. split; [exact Es'|]. split; [exact Hne'|]. split; [discriminate|]. split; [discriminate|]. split; [|discriminate].
           intros _. split; [intros _; exact Hpil|discriminate].
       + apply filter_In in Hin. destruct Hin as (Hin & Hf). apply andb_true_iff in Hf. destruct Hf as (Hf1 & Hf2).
         apply negb_true_iff, Z.eqb_neq in Hf1. apply negb_true_iff, Z.eqb_neq in Hf2. apply Hframe; auto. }
@@ -1485,8 +1699,6 @@ Proof.
   destruct (Nat.leb_spec 8 (length d)) as [H|H]; destruct (Z.leb_spec 8 (Z.of_nat (length d))) as [H'|H']; try lia; [|reflexivity].
   cbn [fst Z.to_nat skipn]. do 8 (destruct d as [|? d]; [cbn [length] in H; lia|]). unfold byte. cbn [nth firstn le_num]. ring.
 Qed.
-Lemma cut_text : forall l, cut 255 l = s_text l.
-Proof. induction l as [|b l IH]; [reflexivity|]. cbn [cut s_text]. rewrite IH. reflexivity. Qed.
 Lemma s_prod_eq m : s_prod (pl m) = parse_pi m.
 Proof.
   unfold s_prod, parse_pi, PI_LEN, dlen. set (d := pl m).
@@ -1581,26 +1793,29 @@ Proof.
         -- destruct (parse_pi m) as [raw|] eqn:Eraw; [|exact I1]. apply inv_remap; [exact I1|apply set_pi_keep|].
            intros d e _ _ _ He Hok. rewrite Nat2Z.id in He. destruct Hwhy as [Hn|[(e' & He' & Hpil)|Hn]]; [congruence| |discriminate].
            rewrite He in He'. injection He' as <-. destruct (a_pi d) as [p0|] eqn:Ea; [eapply dev_ok_set_pi_some; eauto|].
-           destruct Hok as (H1 & H2 & H3 & H4). unfold set_pi. rewrite Ea.
-           split; [exact H1|]. split; [exact H2|]. split; [exact H3|]. intros Hb. destruct (H4 Hb) as (H5 & _). rewrite (H5 Ea) in Hpil. discriminate.
+           destruct Hok as (H1 & H2 & H3 & H4 & H7). unfold set_pi. rewrite Ea.
+           split; [exact H1|]. split; [exact H2|]. split; [exact H3|]. split; [|exact H7]. intros Hb. destruct (H4 Hb) as (H5 & _). rewrite (H5 Ea) in Hpil. discriminate.
         -- rewrite Hraw. destruct I1 as (U1 & Mw1 & Hp1 & Hd1).
            apply (inv_one b (slot st1) (slot st2) M s e _ (set_pi raw) (conj U1 (conj Mw1 (conj Hp1 Hd1))) Hs He Hsl); [reflexivity| |apply set_pi_keep|].
            ++ cbn [with_pi e_pi]. destruct HP as [(_ & -> & _)|(-> & _)]; [exact (Hp1 s e He)|apply nrm_norm].
            ++ intros d _ _ _ Hok. destruct (a_pi d) as [p0|] eqn:Ea.
-              ** destruct Hok as (H1 & H2 & H3 & H4). unfold set_pi. rewrite Ea.
-                 split; [exact H1|]. split; [exact H2|]. split; [exact H3|]. intros Hb. destruct (H4 Hb) as (_ & H6). destruct (H6 _ Ea) as (_ & Hx). congruence.
-              ** destruct Hok as (H1 & H2 & H3 & H4). unfold set_pi. rewrite Ea.
-                 split; [exact H1|]. split; [exact H2|]. split; [exact H3|]. intros Hb. cbn [a_pi with_pi e_pil e_pi]. split; [discriminate|].
+              ** destruct Hok as (H1 & H2 & H3 & H4 & H7). unfold set_pi. rewrite Ea.
+                 split; [exact H1|]. split; [exact H2|]. split; [exact H3|]. split; [|exact H7]. intros Hb. destruct (H4 Hb) as (_ & H6). destruct (H6 _ Ea) as (_ & Hx). congruence.
+              ** destruct Hok as (H1 & H2 & H3 & H4 & H7). unfold set_pi. rewrite Ea.
+                 split; [exact H1|]. split; [exact H2|]. split; [exact H3|]. split; [|exact H7]. intros Hb. cbn [a_pi with_pi e_pil e_pi]. split; [discriminate|].
                  intros p Ep. injection Ep as <-. split; [|reflexivity]. rewrite s_reported_eq.
                  destruct HP as [(Hsame & -> & _)|(-> & _)]; [|reflexivity]. apply pi_same_eq in Hsame. subst raw. symmetry. apply pi_norm_nrm. exact (Hp1 s e He).
       * destruct (Z.eqb_spec (b_pgn m) 126998) as [Hf|Hf].
-        -- (* configuration information: nothing the proved statements speak about *)
-           destruct Hmain as (_ & [->|(e & e2 & He & Hco & _ & Hsl)]).
-           ++ apply inv_remap; [exact I1|apply set_ci_keep|]. intros d e _ _ _ _ Hok. exact Hok.
+        -- (* configuration information *)
+           destruct Hmain as (_ & [(-> & Hwhy)|(e & e2 & He & Hco & _ & Hsl & Hval)]).
+           ++ apply inv_remap; [exact I1|apply set_ci_keep|]. intros d e _ _ _ He (H1 & H2 & H3 & H4 & H7). rewrite Nat2Z.id in He.
+              destruct Hwhy as [Hn|Hn]; [congruence|]. split; [exact H1|]. split; [exact H2|]. split; [exact H3|]. split; [exact H4|].
+              cbn [set_ci a_ci]. rewrite Hn. discriminate.
            ++ destruct I1 as (U1 & Mw1 & Hp1 & Hd1).
               apply (inv_one b (slot st1) (slot st2) M s e e2 _ (conj U1 (conj Mw1 (conj Hp1 Hd1))) Hs He Hsl); [rewrite Hco; reflexivity| |apply set_ci_keep|].
               ** rewrite Hco. cbn [with_conf e_pi]. exact (Hp1 s e He).
-              ** intros d _ _ _ Hok. rewrite Hco. exact Hok.
+              ** intros d _ _ _ (H1 & H2 & H3 & H4 & _). split; [rewrite Hco; exact H1|]. split; [rewrite Hco; exact H2|]. split; [rewrite Hco; exact H3|].
+                 split; [rewrite Hco; exact H4|]. cbn [set_ci a_ci]. exact Hval.
         -- destruct (Z.eqb_spec (b_pgn m) 126464) as [Hg|Hg].
            ++ (* PGN lists *)
               destruct Hmain as (_ & [(-> & Hnone)|(e & e2 & He & _ & Hlo & Hsl & Hmatch)]).
@@ -1610,11 +1825,11 @@ Proof.
                  destruct (s_list (pl m)) as [[k l]|].
                  --- apply (inv_one b (slot st1) (slot st2) M s e e2 _ I1 Hs He Hsl); [rewrite Hlo; reflexivity| |apply set_list_keep|].
                      +++ rewrite Hlo. cbn [with_lists e_pi]. exact (Hp1 s e He).
-                     +++ intros d _ _ _ (H1 & H2 & H3 & H4). unfold set_list. destruct (k =? 0); destruct Hmatch as (Hm1 & Hm2).
-                         *** split; [rewrite Hlo; exact H1|]. cbn [a_tx a_rx a_pi]. split; [intros l0 E; injection E as <-; exact Hm1|]. split; [rewrite Hm2; exact H3|].
-                             rewrite Hlo. exact H4.
-                         *** split; [rewrite Hlo; exact H1|]. cbn [a_tx a_rx a_pi]. split; [rewrite Hm2; exact H2|]. split; [intros l0 E; injection E as <-; exact Hm1|].
-                             rewrite Hlo. exact H4.
+                     +++ intros d _ _ _ (H1 & H2 & H3 & H4 & H7). unfold set_list. destruct (k =? 0); destruct Hmatch as (Hm1 & Hm2).
+                         *** split; [rewrite Hlo; exact H1|]. cbn [a_tx a_rx a_pi a_ci]. split; [intros l0 E; injection E as <-; exact Hm1|]. split; [rewrite Hm2; exact H3|].
+                             split; [rewrite Hlo; exact H4|rewrite Hlo; exact H7].
+                         *** split; [rewrite Hlo; exact H1|]. cbn [a_tx a_rx a_pi a_ci]. split; [rewrite Hm2; exact H2|]. split; [intros l0 E; injection E as <-; exact Hm1|].
+                             split; [rewrite Hlo; exact H4|rewrite Hlo; exact H7].
                  --- subst e2. rewrite <- (at_src_id (Z.of_nat s) M).
                      apply (inv_one b (slot st1) (slot st2) M s e e _ I1 Hs He Hsl); [reflexivity|exact (Hp1 s e He)|auto|auto].
            ++ eapply inv_req_only; [exact I1|exact Hmain].
@@ -1681,8 +1896,14 @@ Qed.
 Theorem info_prod_partial : info_prod_partial_stmt.
 Proof.
   intros h st E Hnr d Hin Hn0. destruct (reach true h init_state [] st wf_init (inv_init true) (fun _ => Hnr) E) as (W & I).
-  destruct (dev_lookup true st _ d W I Hin Hn0) as (_ & _ & e & He & _ & _ & _ & _ & Hpi).
+  destruct (dev_lookup true st _ d W I Hin Hn0) as (_ & _ & e & He & _ & _ & _ & _ & Hpi & _).
   exists e. split; [exact He|]. intros p Hp. destruct (Hpi eq_refl) as (_ & H). exact (proj1 (H p Hp)).
+Qed.
+
+Theorem info_conf : info_conf_stmt.
+Proof.
+  intros h st E d Hin Hn0. destruct (reach0 h st E) as (W & I). destruct (dev_lookup false st _ d W I Hin Hn0) as (_ & _ & e & He & _ & _ & _ & _ & _ & Hci).
+  exists e. split; [exact He|]. exact Hci.
 Qed.
 
 (* ---------- the list-updated indication ---------- *)
@@ -1721,7 +1942,7 @@ Proof.
     destruct (b_pgn m =? PGN_prod).
     { destruct Hmain as (_ & [(-> & _)|(e & raw & P & He & _ & _ & [(_ & -> & _)|(_ & Hu)] & Hsl)]); [right; reflexivity| |left; exact Hu].
       right. intros j. rewrite Hsl. unfold T_set. destruct (Nat.eqb_spec j s) as [->|_]; [rewrite He; reflexivity|reflexivity]. }
-    destruct (b_pgn m =? PGN_conf); [destruct Hmain as (_ & [->|(e & e2 & _ & _ & Hu & _)]); [right; reflexivity|left; exact Hu]|].
+    destruct (b_pgn m =? PGN_conf); [destruct Hmain as (_ & [(-> & _)|(e & e2 & _ & _ & Hu & _)]); [right; reflexivity|left; exact Hu]|].
     destruct (b_pgn m =? PGN_list); [destruct Hmain as (_ & [(-> & _)|(e & e2 & _ & Hu & _)]); [right; reflexivity|left; exact Hu]|].
     right. apply pubv_req_only. exact Hmain.
 Qed.
@@ -1763,7 +1984,8 @@ Definition nv_hist : list event :=
     (1010, true, {| b_pgn := 60928; b_src := 10; b_data := [1;0;0;0;0;238;255;192] |});
     (1015, true, {| b_pgn := 60928; b_src := 5; b_data := [52;18;0;0;0;0;0;0] |});
     (1020, true, {| b_pgn := 126996; b_src := 5; b_data := wit_piB |});
-    (1030, true, {| b_pgn := 126464; b_src := 5; b_data := [0; 0; 238; 1; 20; 240; 1] |}) ].
+    (1030, true, {| b_pgn := 126464; b_src := 5; b_data := [0; 0; 238; 1; 20; 240; 1] |});
+    (1040, true, {| b_pgn := 126998; b_src := 5; b_data := [9; 1; 68; 101; 115; 99; 32; 111; 110; 2; 1; 3; 1; 77] |}) ].
 Lemma nv_no_return : no_return nv_hist init_state [].
 Proof.
   unfold nv_hist. cbn [no_return].
@@ -1778,6 +2000,7 @@ Print Assumptions heap_safe.
 Print Assumptions one_entry_per_name.
 Print Assumptions lookup_agrees.
 Print Assumptions info_lists.
+Print Assumptions info_conf.
 Print Assumptions info_prod_partial.
 Print Assumptions info_prod_refuted.
 Print Assumptions updated_flag.
